@@ -105,7 +105,7 @@ def run(ctx):
         ctx.extra.setdefault("graphs", []).append({"suffix_aware": sa, "states": r.distinct, "edges": len(edges), "walks": len(walks)})
         big = sorted(data["big"])
         for h in data["hist"]:
-            cases.append({"cls": "LRUTrie", "sa": sa, "urls": big, "ops": [[t[0] - 1, VALS[t[1] - 1], t[2]] for t in h]})
+            cases.append({"cls": "LRUTrie", "sa": sa, "urls": big, "ops": [[(t[0] * 7 + i) % len(big), VALS[t[1] - 1], t[2]] for i, t in enumerate(h)]})
         hist = data["hist"]
     # variants: spelling classes of a few bases as the URL list (same-image-same-key)
     lists = {"CanonicalizedLRUTrie": [c["x"] for c in c02.gen_cases(ctx, 1) if c["b"] in (2, 12, 22)],
@@ -125,7 +125,7 @@ def run(ctx):
                                 nontrivial=nontrivial, shard=1500, chunk=20)
     ctx.exhaustive = not ctx.quick
     ctx.rule = ("histories: edge cover of the complete reachable graph of C11.tla (8-URL universe over a co.uk host chain, 2 values, both suffix modes) "
-                "replayed on LRUTrie with set / set_lru(str) / set_lru(stems) rotating; TLC RandomSubset histories over a 20-URL slice of the larger universe; "
+                "replayed on LRUTrie with set / set_lru(str) / set_lru(stems) rotating; TLC RandomSubset histories over a ~60-URL slice (every URL with all its trailing-slash / query / fragment variants, raw paths with empty inner segments); "
                 "for the three variant classes random histories over spelling classes (C02 / normalize / fingerprint machines) of 2-3 bases; after every step "
                 "match, match_lru (both forms) on every URL of the list, len, iter; non-trivial = a key stored twice or more than one entry")
     ctx.assumptions = ["the key of a variant trie is what its public tokenizer returns (judged by C07); for LRUTrie it must equal the Lru.tla stems (MODEL-DRIFT)"]
